@@ -345,12 +345,13 @@ func meshBaseOfLength(v ssa.Value, modelingPath string) ssa.Value {
 }
 
 // RENUM-1 — a renumber table (a local []int whose elements are filled from a running count) hands out new
-//           vertex ids. Its numbering order must be the order in which the attribute arrays are compacted:
-//             * "prefix" tables are filled in a sequential scan (the store index is the counter of the very loop
-//               that carries the count), so new ids follow vertex order — the order of the sequential compaction
-//               loops (gather index = loop counter, decided by the IDX rules);
-//             * a table filled at the position of a vertex id read from elsewhere (first-reference order) is
-//               consistent only when the attribute data of that very vertex is emitted at the same moment.
+//
+//	vertex ids. Its numbering order must be the order in which the attribute arrays are compacted:
+//	  * "prefix" tables are filled in a sequential scan (the store index is the counter of the very loop
+//	    that carries the count), so new ids follow vertex order — the order of the sequential compaction
+//	    loops (gather index = loop counter, decided by the IDX rules);
+//	  * a table filled at the position of a vertex id read from elsewhere (first-reference order) is
+//	    consistent only when the attribute data of that very vertex is emitted at the same moment.
 type RenumSite struct {
 	Fn     *ssa.Function
 	Store  *ssa.Store
